@@ -36,7 +36,7 @@ from dulwich.object_store import (
     PackBasedObjectStore,
     read_packs_file,
 )
-from dulwich.objects import ShaFile
+from dulwich.objects import ZERO_SHA, ShaFile
 from dulwich.pack import (
     Pack,
     PackData,
@@ -394,6 +394,12 @@ class TransportRefsContainer(RefsContainer):
             realname = realnames[-1]
         except (KeyError, IndexError, SymrefLoop):
             realname = name
+        if old_ref is not None:
+            orig_ref = self.read_loose_ref(realname)
+            if orig_ref is None:
+                orig_ref = self.get_packed_refs().get(realname, ZERO_SHA)
+            if orig_ref != old_ref:
+                return False
         if realname == b"HEAD":
             transport = self.worktree_transport
         else:
